@@ -37,6 +37,13 @@ def fixed_templates():
     t.append(dict(match=pat(P_B), mode='m', params=[('p', ('select', E(s('d'))))], body=[('lre', 'B', [], [('valueof', E(('var', 'p'))), ('valueof', E(pos))])]))
     t.append(dict(match=pat(path(step('child', WILD)), [(path(step('child', WILD)), -0.5)]), mode='m', body=[('lre', 'M', [], [('valueof', E(fn('name')))])]))
     t.append(dict(match=pat(ATX), body=[('text', '[x='), ('valueof', E(SELF)), ('text', ']')]))
+    VN, VACC, VD = ('var', 'n'), ('var', 'acc'), ('var', 'depth')
+    # recursion by name: counts n down, accumulating a string; recursion by apply-templates: passes the depth down
+    t.append(dict(name='rec', params=[('n', ('select', E(num(0)))), ('acc', ('select', E(s(''))))],
+                  body=[('choose', [(E(b('>', VN, num(0))), [('call', 'rec', [('n', E(b('-', VN, num(1)))), ('acc', E(fn('concat', VACC, VN, s(','))))])])],
+                         [('lre', 'R', [], [('valueof', E(VACC))])])]))
+    t.append(dict(match=pat(path(step('child', WILD))), mode='d', params=[('depth', ('select', E(num(1))))],
+                  body=[('lre', 'D', [('l', [E(VD)])], [('apply', E(P_STAR), 'd', [], [('depth', E(b('+', VD, num(1))))])])]))
     t.append(dict(name='t', params=[('p', ('select', E(s('D')))), ('q', None)], body=[('lre', 't', [], [('valueof', E(('var', 'p'))), ('text', ':'), ('valueof', E(fn('name'))), ('valueof', E(('var', 'q')))])]))
     return t
 
@@ -60,6 +67,10 @@ def leaf_forms(v='v'):
     L.append(('apply text()', [('apply', E(P_TEXT), '', [], [])]))
     L.append(('call', [('call', 't', [])]))
     L.append(('call param', [('call', 't', [('p', E(pos)), ('q', E(s('Q')))])]))
+    L.append(('call rec', [('call', 'rec', [('n', E(fn('count', P_STAR))), ('acc', E(s('#')))])]))
+    L.append(('apply depth', [('apply', E(P_STAR), 'd', [], [])]))
+    L.append(('foreach var scope', [('foreach', E(P_STAR), [], [('variable', v + 'f', ('select', E(pos))), ('valueof', E(('var', v + 'f')))]),
+                                    ('foreach', E(P_AB), [], [('variable', v + 'f', ('select', E(fn('name')))), ('valueof', E(('var', v + 'f')))])]))
     L.append(('number single', [('number', 'single', None)]))
     L.append(('number any', [('number', 'any', E(P_AB))]))
     L.append(('number multiple', [('number', 'multiple', E(b('|', P_AB, path(step('child', name('r'))))))]))
